@@ -545,7 +545,10 @@ func clip(b []byte) string {
 func (s *sim) open(a Action) {
 	var ss *session
 	if a.S == len(s.sess) {
-		ss = &session{n: a.S, id: a.ID, expectOK: a.Which != "bad"}
+		ss = &session{n: a.S, id: a.ID, expectOK: a.Which != "bad", readyAtOpen: s.boot.ready}
+		if a.Pre && s.boot.act.OneShell && s.boot.ready > 0 {
+			ss.noJudge = true // whether net/http still serves an unused old connection during shutdown is its own business
+		}
 		s.sess = append(s.sess, ss)
 	} else {
 		ss = s.sess[a.S]
@@ -577,9 +580,22 @@ func (s *sim) open(a Action) {
 		if l := s.liveSession(); l != nil && l.id != "" {
 			lid = l.id
 		}
-		id = lid + strings.TrimPrefix(id, "$live")
+		switch suf := strings.TrimPrefix(id, "$live"); suf {
+		case "^": // the same ID in the other case
+			if id = swapCase(lid); id == lid {
+				id = lid + "x"
+			}
+		case "<": // a proper prefix of the ID
+			id = lid[:len(lid)-1]
+			if id == "" {
+				id = lid + "x"
+			}
+		default:
+			id = lid + suf
+		}
 		ss.id = id
 	}
+	id = spell(id, a.N)
 	switch a.K {
 	case "open_in":
 		ss.in = c
@@ -597,6 +613,43 @@ func (s *sim) open(a Action) {
 		_ = c.write([]byte("POST /io HTTP/1.1\r\nHost: h\r\nTransfer-Encoding: chunked\r\n\r\n"))
 		s.probes["io_sessions"]++
 	}
+}
+
+func swapCase(x string) string {
+	b := []byte(x)
+	for i, c := range b {
+		switch {
+		case c >= 'a' && c <= 'z':
+			b[i] = c - 32
+		case c >= 'A' && c <= 'Z':
+			b[i] = c + 32
+		}
+	}
+	return string(b)
+}
+
+// spell returns one of several request-path spellings that all decode to id.
+func spell(id string, n int) string {
+	switch n % 3 {
+	case 1: // every byte percent-encoded
+		var sb strings.Builder
+		for i := 0; i < len(id); i++ {
+			fmt.Fprintf(&sb, "%%%02X", id[i])
+		}
+		return sb.String()
+	case 2: // only what must be encoded, lower-case hex
+		var sb strings.Builder
+		for i := 0; i < len(id); i++ {
+			c := id[i]
+			if c >= 'a' && c <= 'z' || c >= 'A' && c <= 'Z' || c >= '0' && c <= '9' || c == '-' || c == '.' || c == '_' || c == '~' {
+				sb.WriteByte(c)
+			} else {
+				fmt.Fprintf(&sb, "%%%02x", c)
+			}
+		}
+		return sb.String()
+	}
+	return url.PathEscape(id)
 }
 
 // runScript plays curl and /bin/sh for the last script: both requests, pinned.
@@ -894,6 +947,16 @@ func (s *sim) checkSessions() {
 			s.probes["refused_over_http"]++
 			ss.closed = true
 			continue
+		}
+		full := ss.io != nil || ss.in != nil && ss.out != nil
+		if full && !ss.noJudge && !ss.closing && !ss.readyChecked {
+			ss.readyChecked = true
+			if b := s.boot; b != nil && b.ready <= ss.readyAtOpen {
+				s.violate("C04", "rearm-over-http", "a complete shell is not accepted although nothing else is attached",
+					"session %d (ID %q) has made both of its requests while no other shell was attached, but no ready notice was displayed: the listener must behave as if freshly started", ss.n, ss.id)
+			} else {
+				s.probes["shells_ready_over_http"]++
+			}
 		}
 		if ss.closing {
 			// every response of the session has ended by now
